@@ -107,10 +107,10 @@ Print Assumptions C13_result_is_original_debug_stmt_refuted.
 (* refuted for completion on the unrepaired code under an IPython without pt_cli (F30): a completion during
    which a stub fires logs the error, post() raises AttributeError out of the hook, and the next, healthy,
    completion dies on the handler's assertion *)
-Definition E9 : env := mkEnv RPost true AstTransformers true true ComplGlobal false PmMissing true true true true 20%N true true.
+Definition E9 : env := mkEnv RPost true AstTransformers true true ComplGlobal false PmMissing true true true true 20%N true true true.
 Definition IO_unrepaired : io_env := mkIo false true false false false.
 Definition IO_repaired : io_env := mkIo false true false true true.
-Definition s9 : state := res_state (enable E9 true (init_state (fun _ => VUnset) [] [0; 1; 2; 3]%N [] 100%N)).
+Definition s9 : state := res_state (enable E9 true (init_state (fun _ => VUnset) [] [0; 1; 2; 3]%N [] true 100%N)).
 
 Theorem C13_completion_refuted :
   exists s1, hook_complete E9 IO_unrepaired [(SCompletion, EExc 10%N)] false [] s9 = Raise s1 (EExc cls_AttributeError) /\
